@@ -66,6 +66,9 @@ InitC02Quick ==
     \* the registered callable is a plain function that RETURNS a coroutine
     \/ \E e \in ElemsFull : InitWith(PCfg(<<"async", "wrapcoro">>, "unset"), Single(e))
     \/ \E e1 \in ElemsMid, e2 \in ElemsMid : InitWith(PCfg(<<"async", "wrapcoro">>, "unset"), Batch(<<e1, e2>>))
+    \* the asynchronous dispatcher with concurrent_batch switched off: a batch is still the map of its elements
+    \/ \E e1 \in ElemsMid, e2 \in ElemsMid : InitWith(PCfg(<<"asyncseq", "coro">>, "unset"), Batch(<<e1, e2>>))
+    \/ \E e1 \in ElemsSmall, e2 \in ElemsSmall, e3 \in ElemsSmall : InitWith(PCfg(<<"asyncseq", "coro">>, "n3"), Batch(<<e1, e2, e3>>))
 InitC02Thorough ==
     \/ InitC02Quick
     \/ \E kf \in KindFl, mb \in {"unset", "n2", "n3", "n4"} :
